@@ -379,21 +379,75 @@ def build_harness(binname, release=False, features=None):
 # running line-oriented executables with crash isolation
 
 
-def run_lines(cmd, lines, timeout_per_batch=600, env=None, crash_marker="xabort", cwd=None):
+STALL_TIMEOUT = float(os.environ.get("VERIF_STALL_TIMEOUT", "90"))
+
+
+def run_lines(cmd, lines, timeout_per_batch=600, env=None, crash_marker="xabort", cwd=None,
+              stall_timeout=None, max_hangs=3):
     """Feed `lines` to `cmd` (one result line per input line).  If the process dies
-    or hangs, the line it died on gets `crash_marker` and the rest is resumed."""
+    or hangs, the line it died on gets `crash_marker` / `xhang` and the rest is resumed.
+    A hang is recognised by *inactivity*: no further result line for `stall_timeout`
+    seconds (default min(timeout_per_batch, 90)), or the whole batch exceeding
+    `timeout_per_batch`.  After `max_hangs` hangs the remaining lines are not run and
+    get `xskipped` (the run already has violations to report; this bounds its duration)."""
+    import threading
+    if stall_timeout is None:
+        stall_timeout = min(timeout_per_batch, STALL_TIMEOUT)
     results = []
     i = 0
+    hangs = 0
     while i < len(lines):
+        if hangs >= max_hangs:
+            results.extend(["xskipped"] * (len(lines) - i))
+            break
         data = ("\n".join(lines[i:]) + "\n").encode()
+        p = subprocess.Popen(cmd, stdin=subprocess.PIPE, stdout=subprocess.PIPE, stderr=subprocess.DEVNULL,
+                             env=env or ENV, cwd=cwd)
+        chunks = []
+        state = {"last": time.time(), "done": False}
+
+        def feed():
+            try:
+                p.stdin.write(data)
+                p.stdin.close()
+            except Exception:  # noqa: BLE001  (child died early)
+                pass
+
+        def drain():
+            while True:
+                b = p.stdout.read1(1 << 16)
+                if not b:
+                    break
+                chunks.append(b)
+                if b"\n" in b:
+                    state["last"] = time.time()
+            state["done"] = True
+
+        tf = threading.Thread(target=feed, daemon=True)
+        td = threading.Thread(target=drain, daemon=True)
+        tf.start()
+        td.start()
+        t_start = time.time()
+        timed_out = False
+        while not state["done"]:
+            td.join(0.05)
+            now = time.time()
+            if state["done"]:
+                break
+            if now - state["last"] > stall_timeout or now - t_start > timeout_per_batch:
+                timed_out = True
+                break
+        if timed_out:
+            try:
+                p.kill()
+            except Exception:  # noqa: BLE001
+                pass
+        td.join(5)
         try:
-            p = subprocess.run(cmd, input=data, stdout=subprocess.PIPE, stderr=subprocess.PIPE,
-                               timeout=timeout_per_batch, env=env or ENV, cwd=cwd)
-            out = p.stdout.decode("utf-8", "replace")
-            timed_out = False
-        except subprocess.TimeoutExpired as e:
-            out = (e.stdout or b"").decode("utf-8", "replace")
-            timed_out = True
+            p.wait(timeout=5)
+        except Exception:  # noqa: BLE001
+            pass
+        out = b"".join(chunks).decode("utf-8", "replace")
         got = out.split("\n")
         if got and got[-1] == "":
             got.pop()
@@ -404,6 +458,8 @@ def run_lines(cmd, lines, timeout_per_batch=600, env=None, crash_marker="xabort"
         i += len(got)
         if i < len(lines):
             results.append("xhang" if timed_out else crash_marker)
+            if timed_out:
+                hangs += 1
             i += 1
     return results
 
